@@ -244,6 +244,10 @@ func main() {
 		dump(os.Args[2])
 	case "idents":
 		idents()
+	case "typetree":
+		typetree()
+	case "primalias":
+		primalias()
 	default:
 		os.Exit(2)
 	}
